@@ -18,6 +18,7 @@ INTERIOR = ("Mutex<", "RwLock<", "Cell<", "RefCell<", "Atomic", "OnceLock<", "On
 
 
 def run(ctx):
+    k8_reply_path_not_shared(ctx)
     k6_shared_table_keys(ctx)
     k7_process_wide_slots(ctx)
     prog = ctx.prog
@@ -313,3 +314,18 @@ def k7_process_wide_slots(ctx):
         ctx.ob("K7", b.defp, f"process-wide-slot-independent-of-first-caller:{last_seg(it['path'])}", loc(t["sp"]), reason is None,
                reason or f"static {last_seg(it['path'])} is filled with a value that has no run-time input")
     ctx.ob("K7", "workspace", "single-slot-statics-inventoried", "-", True, f"{len(fills)} fill site(s) of single-slot statics (keyed tables are K6's business)", nontrivial=False, ordinal=False)
+
+
+def k8_reply_path_not_shared(ctx):
+    """K8: the reply path of a session is not rewritten by another flow's datagram (C02 U3 re-evaluated: delivery to the wrong flow)"""
+    from ..engine import Ctx
+    from . import c02
+    sub = Ctx(ctx.prog, "C02", ctx.tier)
+    c02.run(sub)
+    n = 0
+    for o in sub.obs:
+        if o.rule == "U3" and ("reply" in o.key or "association-address" in o.key):
+            n += 1
+            parts = o.key.split("|")
+            ctx.ob("K8", parts[1], parts[2], o.where, o.ok, o.detail)
+    ctx.floor("K8", "association reply-path obligations (U3)", 2, n)
